@@ -152,9 +152,12 @@ func (o *Operations) Update(
 			}
 			hdr.Size = int64(fileSizeCounter.BytesRead)
 
-			hdr.Name, err = suffix.AddSuffix(hdr.Name, o.pipes.Compression, o.pipes.Encryption)
-			if err != nil {
-				return []*tar.Header{}, err
+			// An encoder may emit nothing for empty content; such a record carries no encoded content and keeps its name
+			if hdr.Size > 0 {
+				hdr.Name, err = suffix.AddSuffix(hdr.Name, o.pipes.Compression, o.pipes.Encryption)
+				if err != nil {
+					return []*tar.Header{}, err
+				}
 			}
 		}
 
